@@ -32,9 +32,9 @@ def sign_tables(rep, F, rule='R-TABLE'):
             continue
         scale_t = T('field', T('param', 1), 'scale')
         for sign in SIGNS:
-            for sc in (0, 7):
+            for sc in (0, 7, -3):
                 n += 1
-                key = '%s:sign=%s,scale%s0' % (fn.key, sign, '==' if sc == 0 else '!=')
+                key = '%s:sign=%s,scale%s0' % (fn.key, sign, '==' if sc == 0 else '>' if sc > 0 else '<')
                 ev = TB.Evaluator(F.raw['enums'], {sign_term: ('variant', 'Sign', sign), scale_t: sc})
                 try:
                     atoms, out = ev.select(paths)
@@ -203,7 +203,7 @@ def run(ctx):
     n2 = owned_forwarders(rep, F)
     n3 = projections(rep, F)
     nf, nc = no_flooring(rep, F)
-    rep.floor('sign-dispatch cells', n1, 24)
+    rep.floor('sign-dispatch cells', n1, 36)
     rep.floor('owned forwarders', n2, 5)
     rep.floor('projection constructors', n3, 26)
     rep.floor('functions on conversion paths', nf, 10)
